@@ -152,12 +152,15 @@ pub fn execute(scen: &'static Scenario, input: RunInput) -> RunOutput {
     AFTER_TEARDOWN.with(|a| a.borrow_mut().clear());
     anemo::verif::set_active(true);
     crate::vclock::activate();
-    let rt = tokio::runtime::Builder::new_current_thread()
+    let sched = SchedMode::for_run(&input);
+    let reorderings = std::rc::Rc::new(std::cell::Cell::new(0u64));
+    let mut builder = tokio::runtime::Builder::new_current_thread();
+    builder
         .enable_time()
         .start_paused(true)
-        .rng_seed(tokio::runtime::RngSeed::from_bytes(&seed.to_le_bytes()))
-        .build()
-        .unwrap();
+        .rng_seed(tokio::runtime::RngSeed::from_bytes(&seed.to_le_bytes()));
+    sched.install(seed, &mut builder, reorderings.clone());
+    let rt = builder.build().unwrap();
     let run = scen.run;
     let result = std::panic::catch_unwind(std::panic::AssertUnwindSafe(|| {
         rt.block_on(async move {
@@ -180,6 +183,7 @@ pub fn execute(scen: &'static Scenario, input: RunInput) -> RunOutput {
             f();
         }
     }));
+    tokio::runtime::sim_sched::set_picker(None);
     anemo::verif::set_active(false);
     crate::vclock::deactivate();
     CURRENT.with(|c| *c.borrow_mut() = None);
@@ -218,7 +222,129 @@ pub fn execute(scen: &'static Scenario, input: RunInput) -> RunOutput {
         }
     }
     out.panics = panics;
+    // the schedule mode is a run parameter like any other: reported, and shrunk towards FIFO
+    if !out.params.iter().any(|p| p.0 == "sched") {
+        out.params.push(("sched".into(), sched as i64, 0, 3));
+    }
+    *out.counts.entry(format!("sched_mode_{}", sched.name())).or_default() += 1;
+    *out.counts.entry("sched_reordered_polls".into()).or_default() += reorderings.get();
+    if reorderings.get() > 0 {
+        out.nontrivial = true;
+    }
     out
+}
+
+// ---------------------------------------------------------------------------------------------
+// task scheduling (seam: tokio::runtime::sim_sched in the vendored tokio)
+// ---------------------------------------------------------------------------------------------
+
+/// How the runnable tasks of a run are ordered. Every mode is a legal schedule of the
+/// multi-threaded runtime anemo is used with; FIFO is what tokio's current-thread scheduler does.
+#[derive(Clone, Copy, Debug, PartialEq, Eq)]
+pub enum SchedMode {
+    Fifo = 0,
+    /// FIFO with an occasional out-of-order pick (a task preempted / stolen now and then)
+    RareSwap = 1,
+    /// most recently woken task first most of the time (the LIFO slot of the multi-threaded scheduler)
+    Lifo = 2,
+    /// uniformly random among the runnable tasks
+    Random = 3,
+}
+
+impl SchedMode {
+    pub fn name(self) -> &'static str {
+        match self {
+            SchedMode::Fifo => "fifo",
+            SchedMode::RareSwap => "rare-swap",
+            SchedMode::Lifo => "lifo",
+            SchedMode::Random => "random",
+        }
+    }
+    fn from_i64(v: i64) -> Self {
+        match v {
+            1 => SchedMode::RareSwap,
+            2 => SchedMode::Lifo,
+            3 => SchedMode::Random,
+            _ => SchedMode::Fifo,
+        }
+    }
+    pub fn for_run(input: &RunInput) -> Self {
+        use rand::Rng;
+        if let Some(v) = input.overrides.get("sched") {
+            return Self::from_i64(*v);
+        }
+        let x: f64 = crate::choice::Choice::new(input.seed).stream("cfg:sched").gen();
+        if x < 0.40 {
+            SchedMode::Fifo
+        } else if x < 0.65 {
+            SchedMode::RareSwap
+        } else if x < 0.80 {
+            SchedMode::Lifo
+        } else {
+            SchedMode::Random
+        }
+    }
+    fn install(self, seed: u64, builder: &mut tokio::runtime::Builder, reorderings: std::rc::Rc<std::cell::Cell<u64>>) {
+        use rand::Rng;
+        if self == SchedMode::Fifo {
+            tokio::runtime::sim_sched::set_picker(None);
+            return;
+        }
+        let mut rng = crate::choice::Choice::new(seed).stream("sched");
+        // how many tasks run between two visits of the timer driver / the main future
+        let ei = [1u32, 2, 3, 5, 8, 13, 31, 61][rng.gen_range(0..8)];
+        builder.event_interval(ei);
+        let p_swap = [1.0 / 64.0, 1.0 / 16.0, 1.0 / 4.0][rng.gen_range(0..3)];
+        tokio::runtime::sim_sched::set_picker(Some(Box::new(SeededPicker { mode: self, rng, p_swap, reorderings })));
+    }
+}
+
+struct SeededPicker {
+    mode: SchedMode,
+    rng: rand::rngs::StdRng,
+    p_swap: f64,
+    reorderings: std::rc::Rc<std::cell::Cell<u64>>,
+}
+
+impl tokio::runtime::sim_sched::Picker for SeededPicker {
+    fn pick(&mut self, len: usize) -> usize {
+        use rand::Rng;
+        let k = match self.mode {
+            SchedMode::Fifo => 0,
+            SchedMode::RareSwap => {
+                if self.rng.gen_bool(self.p_swap) {
+                    self.rng.gen_range(0..len)
+                } else {
+                    0
+                }
+            }
+            SchedMode::Lifo => {
+                if self.rng.gen_bool(0.75) {
+                    len - 1
+                } else {
+                    0
+                }
+            }
+            SchedMode::Random => self.rng.gen_range(0..len),
+        };
+        if k != 0 {
+            self.reorderings.set(self.reorderings.get() + 1);
+        }
+        k
+    }
+    fn defer_main(&mut self, _queued: usize) -> bool {
+        use rand::Rng;
+        let d = match self.mode {
+            SchedMode::Fifo => false,
+            SchedMode::RareSwap => self.rng.gen_bool(self.p_swap),
+            SchedMode::Lifo => self.rng.gen_bool(0.25),
+            SchedMode::Random => self.rng.gen_bool(0.5),
+        };
+        if d {
+            self.reorderings.set(self.reorderings.get() + 1);
+        }
+        d
+    }
 }
 
 /// Location part of a panic message (`panicked at file:line:col`), used as identifying key.
@@ -821,6 +947,7 @@ pub fn replay(all: &[&'static Scenario], path: &str) -> i32 {
     let tier = if doc["tier"] == "thorough" { Tier::Thorough } else { Tier::Quick };
     let mut input = RunInput::new(doc["seed"].as_u64().unwrap(), tier);
     input.index = doc["index"].as_u64().unwrap_or(0);
+    input.overrides.clear(); // a replay file is self-contained
     if let Some(o) = doc["overrides"].as_object() {
         for (k, v) in o {
             input.overrides.insert(k.clone(), v.as_i64().unwrap());
